@@ -80,4 +80,27 @@ theorem C09_history (fs : Fs) (h : Reachable fs) :
       simp [goodStart, restorable, h1, h2]
   exact ⟨good, (key fs good).2⟩
 
+
+/-! ## a directory in which a file has never been saved (the first save) -/
+
+/-- every state a save can start in when a data file may not exist yet: each data file the previous version, the new one or
+**absent**, its temporary sibling in any condition -/
+def startStatesFresh : List Fs :=
+  let cs : List Content := [.old, .new, .torn, .empty, .absent]
+  let files : List FileState := [Content.old, Content.new, Content.absent].flatMap fun f => cs.map fun t => ⟨f, t⟩
+  files.flatMap fun a => files.map fun b => ⟨a, b⟩
+
+/-- what the save started with (possibly nothing), or the new version — never a torn or empty file, and never *nothing*
+where there was something -/
+def keeps (st x : FileState) : Bool := x.file = st.file || x.file = .new
+
+/-- **The first save is crash-safe too**: from every such start, a crash at any instant leaves each data file as the
+save found it (a complete version, or still absent: start-up then takes the defaults and keeps the save directory) or
+complete and new; a completed save leaves the new version of both and no temporary file. -/
+theorem C09_first_save :
+    startStatesFresh.all (fun st =>
+      (crashStatesFrom st saveOps).all (fun x => keeps st.freq x.freq && keeps st.dic x.dic) &&
+      decide ((completeFrom st saveOps).freq = ⟨.new, .absent⟩ ∧ (completeFrom st saveOps).dic = ⟨.new, .absent⟩)) = true := by
+  decide +kernel
+
 end Chokan.Props.C09
